@@ -3,7 +3,7 @@
 // failed checks: attempt to divide with overflow @ statime-base/src/time_types.rs:248
 // re-run natively against the real code:  /verif/check C32 --replay /verif/replays/C32-c32_p_ptp_dur_div_i16.rs
 //meta {"property": "C32", "crate_dir": "statime-base", "harness": "time_types::verif::c32_p_ptp_dur_div_i16", "harness_file": "/verif/kani/statime_base/time_types.rs", "features": [], "transform": false, "c_ffi": false}
-// native replay: not-run
+// native replay: passed-natively
 /// Test generated for harness `time_types::verif::c32_p_ptp_dur_div_i16` 
 ///
 /// Check for `assertion`: "attempt to divide with overflow"
@@ -20,12 +20,30 @@ fn kani_concrete_playback_c32_p_ptp_dur_div_i16_11484954772115337367() {
 }
 
 /* native run output:
-error: unexpected argument '--no-assertion-reach-checks' found
+   Compiling statime-base v2.0.0-alpha.20260715 (/repo/statime-base)
+warning: use of an unstable feature
+ --> <crate attribute>:1:12
+  |
+1 | #![feature(register_tool)]
+  |            ^^^^^^^^^^^^^
+  |
+  = note: requested on the command line with `--force-warn unstable-features`
 
-  tip: to pass '--no-assertion-reach-checks' as a value, use '-- --no-assertion-reach-checks'
+warning: `statime-base` (lib) generated 1 warning
+warning: `statime-base` (lib test) generated 1 warning (1 duplicate)
+    Finished `test` profile [unoptimized + debuginfo] target(s) in 0.92s
+     Running unittests src/lib.rs (/verif/build/playback/x86_64-unknown-linux-gnu/debug/build/statime-base/c9bc5351fd78dd8c/out/statime_base-c9bc5351fd78dd8c)
 
-Usage: cargo-kani playback --unstable <UNSTABLE_FEATURE> [-- [TEST_ARGS]...]
+running 1 test
+test time_types::verif::replay::kani_concrete_playback_c32_p_ptp_dur_div_i16_11484954772115337367 ... ok
 
-For more information, try '--help'.
+test result: ok. 1 passed; 0 failed; 0 ignored; 0 measured; 9 filtered out; finished in 0.00s
+
+   Doc-tests statime_base
+
+running 0 tests
+
+test result: ok. 0 passed; 0 failed; 0 ignored; 0 measured; 1 filtered out; finished in 0.00s
+
 
 */
